@@ -7,6 +7,7 @@ TABLE = {
     "T1": ("t1_scalar", "ScalarTable.lean"),
     "T2": ("t2_fold", "FoldOps.lean"),
     "T6": ("t6_schema", "AstSchema.lean"),
+    "T3": ("t3_classes", "ClassTable.lean"),
 }
 
 
